@@ -593,6 +593,9 @@ func c10GenBlank(t *rapid.T, min, max int, label string) string {
 }
 
 func c10GenCmdline(t *rapid.T) string {
+	if rapid.IntRange(0, 15).Draw(t, "emptycmd") == 0 {
+		return ""
+	}
 	var sb strings.Builder
 	sb.WriteString(c10GenBlank(t, 0, 3, "lead"))
 	n := rapid.IntRange(0, 6).Draw(t, "ntokens")
@@ -682,31 +685,58 @@ func c10GenFb(t *rapid.T) *c10Fb {
 
 var c10SecNames = []string{".text", ".data", ".bss", ".rodata", ".noptrbss", ".shstrtab", ".strtab", ".symtab", "a", ".note.go.buildid", ".t"}
 
+type c10SecDraft struct {
+	s         c10Section
+	nameClass int
+	nameRaw   int
+}
+
+var c10SecGen = rapid.Custom(func(t *rapid.T) c10SecDraft {
+	d := c10SecDraft{s: c10Section{
+		Type:  rapid.SampledFrom([]uint32{0, 1, 2, 3, 8, 0x70000000}).Draw(t, "stype"),
+		Flags: rapid.OneOf(rapid.SampledFrom([]uint64{0, 1, 2, 3, 4, 6, 7, 0x100000003, 0xffffffff00000000, 0xffffffff, ^uint64(0)}), rapid.Uint64()).Draw(t, "flags"),
+		Addr:  rapid.Uint64().Draw(t, "saddr"),
+		Other: rapid.Uint64().Draw(t, "other"),
+	}}
+	switch rapid.IntRange(0, 5).Draw(t, "sizeclass") {
+	case 0, 1:
+		d.s.Size = 0
+	case 2:
+		d.s.Size = 1
+	default:
+		d.s.Size = rapid.Uint64().Draw(t, "ssize")
+	}
+	d.nameClass = rapid.IntRange(0, 9).Draw(t, "nameclass")
+	d.nameRaw = rapid.IntRange(0, 1<<16).Draw(t, "nameraw")
+	return d
+})
+
+var c10NameGen = rapid.Custom(func(t *rapid.T) []byte {
+	if rapid.IntRange(0, 4).Draw(t, "rndname") == 0 {
+		return rapid.SliceOfN(rapid.ByteRange(1, 255), 0, 10).Draw(t, "namebytes")
+	}
+	return []byte(rapid.SampledFrom(c10SecNames).Draw(t, "name"))
+})
+
 func c10GenElf(t *rapid.T) *c10Elf {
 	e := &c10Elf{Strtab: []byte{}}
-	var n int
+	lo, hi := 2, 12
 	switch rapid.IntRange(0, 7).Draw(t, "nsecclass") {
 	case 0:
-		n = 0
+		lo, hi = 0, 0
 	case 1:
-		n = 1
-	default:
-		n = rapid.IntRange(2, 12).Draw(t, "nsec")
+		lo, hi = 1, 1
 	}
-	// string table: optional leading NUL, names, NUL after each
+	drafts := rapid.SliceOfN(c10SecGen, lo, hi).Draw(t, "sections")
+	n := len(drafts)
+	// string table: optional leading NUL, then names, each followed by NUL
 	var starts []uint32
 	if rapid.IntRange(0, 3).Draw(t, "leadnul") != 0 {
 		e.Strtab = append(e.Strtab, 0)
 	}
-	nn := rapid.IntRange(0, n+1).Draw(t, "nnames")
-	for i := 0; i < nn; i++ {
+	for _, nm := range rapid.SliceOfN(c10NameGen, 0, n+1).Draw(t, "names") {
 		starts = append(starts, uint32(len(e.Strtab)))
-		if rapid.IntRange(0, 4).Draw(t, "rndname") == 0 {
-			nm := rapid.SliceOfN(rapid.ByteRange(1, 255), 0, 10).Draw(t, "namebytes")
-			e.Strtab = append(e.Strtab, nm...)
-		} else {
-			e.Strtab = append(e.Strtab, rapid.SampledFrom(c10SecNames).Draw(t, "name")...)
-		}
+		e.Strtab = append(e.Strtab, nm...)
 		e.Strtab = append(e.Strtab, 0)
 	}
 	if n > 0 && len(e.Strtab) == 0 {
@@ -718,30 +748,17 @@ func c10GenElf(t *rapid.T) *c10Elf {
 			e.Shndx = uint32(n - 1)
 		}
 	}
-	for i := 0; i < n; i++ {
-		s := c10Section{
-			Type:  rapid.SampledFrom([]uint32{0, 1, 2, 3, 8, 0x70000000}).Draw(t, "stype"),
-			Flags: rapid.OneOf(rapid.SampledFrom([]uint64{0, 1, 2, 3, 4, 6, 7, 0x100000003, 0xffffffff00000000, 0xffffffff, ^uint64(0)}), rapid.Uint64()).Draw(t, "flags"),
-			Addr:  rapid.Uint64().Draw(t, "saddr"),
-			Other: rapid.Uint64().Draw(t, "other"),
-		}
-		switch rapid.IntRange(0, 5).Draw(t, "sizeclass") {
-		case 0, 1:
-			s.Size = 0
-		case 2:
-			s.Size = 1
-		default:
-			s.Size = rapid.Uint64().Draw(t, "ssize")
-		}
-		switch k := rapid.IntRange(0, 9).Draw(t, "nameclass"); {
+	for _, d := range drafts {
+		s := d.s
+		switch k := d.nameClass; {
 		case k < 5 && len(starts) > 0:
-			s.Name = rapid.SampledFrom(starts).Draw(t, "namestart")
+			s.Name = starts[d.nameRaw%len(starts)]
 		case k == 5:
-			s.Name = uint32(len(e.Strtab) - 1) // the final NUL: empty name, last byte before the guard page
+			s.Name = uint32(len(e.Strtab) - 1) // the final NUL: empty name, last byte in front of the guard page
 		case k == 6:
 			s.Name = 0
 		default:
-			s.Name = uint32(rapid.IntRange(0, len(e.Strtab)-1).Draw(t, "nameidx"))
+			s.Name = uint32(d.nameRaw % len(e.Strtab))
 		}
 		e.Sections = append(e.Sections, s)
 	}
@@ -776,6 +793,14 @@ func c10GenRaw(t *rapid.T) c10Tag {
 		if cut < len(tag.Raw) {
 			tag.Raw = tag.Raw[:len(tag.Raw)-cut]
 		}
+	} else if rapid.IntRange(0, 11).Draw(t, "bigraw") == 0 {
+		// a large tag (e.g. VBE info is 784 bytes): pushes the block over a page
+		n := rapid.IntRange(200, c10MaxRaw).Draw(t, "rawlen")
+		tag.Raw = make([]byte, n)
+		fill := rapid.Byte().Draw(t, "rawfill")
+		for i := range tag.Raw {
+			tag.Raw[i] = fill + byte(i)
+		}
 	} else {
 		tag.Raw = rapid.SliceOfN(rapid.Byte(), 0, 24).Draw(t, "raw")
 	}
@@ -802,7 +827,23 @@ var c10TagGen = rapid.Custom(func(t *rapid.T) c10Tag {
 
 func c10GenCase(t *rapid.T) c10Case {
 	c := c10Case{Pad: rapid.SampledFrom([]byte{0, 0, 0xff, 0xa5, 1, 6, 8, 9, ' ', 'x'}).Draw(t, "pad")}
-	c.Tags = rapid.SliceOfN(c10TagGen, 0, 9).Draw(t, "tags")
+	lo := 3
+	if rapid.IntRange(0, 7).Draw(t, "fewtags") == 0 {
+		lo = 0
+	}
+	c.Tags = rapid.SliceOfN(c10TagGen, lo, 10).Draw(t, "tags")
+	if rapid.IntRange(0, 19).Draw(t, "bulk") == 1 {
+		// several large tags: the block spans more than one page
+		k := rapid.IntRange(4, 6).Draw(t, "nbulk")
+		for i := 0; i < k; i++ {
+			raw := make([]byte, rapid.IntRange(900, c10MaxRaw).Draw(t, "bulklen"))
+			for j := range raw {
+				raw[j] = byte(j*7 + i)
+			}
+			at := rapid.IntRange(0, len(c.Tags)).Draw(t, "bulkat")
+			c.Tags = append(c.Tags[:at], append([]c10Tag{{Kind: "raw", Type: uint32(11 + i), Raw: raw}}, c.Tags[at:]...)...)
+		}
+	}
 	if i := c.first("mmap"); i >= 0 {
 		if nr := len(c.Tags[i].Mmap.Regions); nr > 0 && rapid.IntRange(0, 2).Draw(t, "stop") != 0 {
 			c.StopAt = rapid.IntRange(1, nr).Draw(t, "stopat")
